@@ -1,59 +1,10 @@
-# per-property configuration of ./check (what to build, what to run, what the evidence says)
-COMMON_TB = [
-    "hand-written Lean model tied to /repo only by the executed correspondence (sampled, seeded)",
-    "Go harness (/verif/harness): op generators, observation of real state, JSONL protocol; Lean driver parser",
-    "cosmos-sdk baseapp/bank/auth, cosmossdk.io/math big integers, IAVL: modelled, not verified",
-]
-
-HIST_RULE = ("histories of signed transactions through FinalizeBlock+Commit on the real app (standard world: 4 amm pools, 2 of them oracle pools "
-             "with leveragelp+perpetual+accounted pool, stablestake, masterchef, tradeshield; weighted op grammar over ~30 message kinds plus oracle price "
-             "moves and third-party sends); an evaluation is one block; non-trivial/distinct = distinct block lines (txs, results and observed state)")
-
-
-def hist_run(nq=150, nt=400, sq=8, st=14, focus=None, hq=1, ht=3):
-    r = dict(mode="hist", n_quick=nq, n_thorough=nt, shards_quick=sq, shards_thorough=st, env_quick={"VERIF_HISTS": str(hq)}, env_thorough={"VERIF_HISTS": str(ht)})
-    if focus:
-        r["env_quick"]["VERIF_FOCUS"] = focus
-        r["env_thorough"]["VERIF_FOCUS"] = focus
-    return r
-
-
-PROPS = {
-    "C14": dict(
-        level="proof",
-        lean_modules=["ElysModel.Props.C14"],
-        props_files=["ElysModel/Props/C14.lean"],
-        runs=[dict(mode="c14", n_quick=600, n_thorough=20000, shards_quick=8, shards_thorough=14)],
-        rule="op sequences (vest/claim/cancel/vest-now/gov schedule change at generated heights) on the real commitment "
-             "msg server, one fresh account per sequence; an evaluation is one op; non-trivial = the op succeeded; "
-             "distinct = distinct (op, arguments, result, observed entries) tuples",
-        trusted_base=COMMON_TB + ["msg server driven directly with ctx.WithBlockHeight and CacheContext per op (not through FinalizeBlock)"],
-        assumptions=["one vesting denom (ELYS) per account; amounts positive (ValidateBasic); NumBlocks > 0 except in the witness"],
-        explanation="Theorems C14.* over all op sequences of the vesting model; model = code checked by differential op sequences; "
-                    "property predicates (claim succeeds, monotone, bounds, conservation, completion, vest-now) evaluated on every real observation.",
-    ),
-    "C12": dict(
-        level="proof",
-        lean_modules=["ElysModel.Props.C12"],
-        props_files=["ElysModel/Props/C12.lean"],
-        runs=[hist_run()],
-        rule=HIST_RULE,
-        trusted_base=COMMON_TB + ["macro-ops of each block are recognised from x/bank's own transfer/coinbase/burn events and the submitted messages; "
-                                  "claimed-bucket bookkeeping of Eden/EdenB and EdenB burns are witnessed (W) from the observation"],
-        assumptions=["lock-up arithmetic (DeductFromCommitted) is not in the ledger model; VestLiquid is not exercised"],
-        explanation="Theorems: the relation the code maintains (total = sum + 2*uncommitted + burnt) by induction over all macro-op histories, total >= sum, "
-                    "custody, no-overdraw, the property's first clause over histories without uncommit (partial) and the witness of the defect. "
-                    "Known finding C12-uncommit-adds: reported only while the real total equals the as-coded relation exactly.",
-    ),
-    "C02": dict(
-        level="proof",
-        lean_modules=["ElysModel.Props.C02"],
-        props_files=["ElysModel/Props/C02.lean"],
-        runs=[hist_run(focus="amm.")],
-        rule=HIST_RULE,
-        trusted_base=COMMON_TB + ["share mint/burn macro-ops recognised from x/bank events (coinbase -> send -> commit; uncommit -> send -> burn)"],
-        assumptions=["call-site fact used by the theorem: shares are committed only by MintPoolShareToAccount and uncommitted only by exit/unbond paths"],
-        explanation="Theorems: pool TotalShares = supply = sum of committed = custody balance is preserved by every macro-op (induction over histories); "
-                    "supply changes only in the paired mint/burn macro-ops. Same predicate evaluated on every observed block.",
-    ),
-}
+# loads lib/props/Cxx.py (one file per property: CFG = dict(...))
+import os, glob, importlib.util
+HERE = os.path.dirname(os.path.abspath(__file__))
+PROPS = {}
+for _p in sorted(glob.glob(os.path.join(HERE, "props", "C*.py"))):
+    _pid = os.path.basename(_p)[:-3]
+    _spec = importlib.util.spec_from_file_location("prop_" + _pid, _p)
+    _m = importlib.util.module_from_spec(_spec)
+    _spec.loader.exec_module(_m)
+    PROPS[_pid] = _m.CFG
